@@ -294,7 +294,7 @@ func planC19(w *World, spec RunSpec) {
 		w.Scenario = GenOT(w, 5, "hostile")
 	case 2:
 		w.Cfg.Packages = true
-		w.Scenario = GenPKG(w, 4, "hostile", "final-delete", "recreate")
+		w.Scenario = GenPKG(w, 4, "hostile", "final-delete", "recreate", "squatter")
 	}
 	w.AddAgent(&HostileAgent{Budget: 2 + s.Intn(10, "hostile-budget")})
 	w.StartProcesses()
